@@ -7,6 +7,7 @@ the canonical field-by-field dump (the harness prints the same dump from the rea
   record <buf> <pos>          Record::read at index pos
   msg    <buf>                Message::from_vec
   req    <buf>                hickory_server Request::from_bytes
+  readq  <n> <buf> <pos>      Message::read_queries(decoder at pos, n)
 -/
 import HickoryVerif.Drv.Proto
 import HickoryVerif.Model.Wire
@@ -133,6 +134,10 @@ def handle (toks : List String) : Option String :=
   | ["msg", buf] => do
     let buf ← parseHex buf
     pure (showOutcome (fun (m, _) => showMessage m) (Rd.run (readMessage opqDrv) buf 0))
+  | ["readq", n, buf, pos] => do
+    let n ← n.toNat?; let buf ← parseHex buf; let pos ← pos.toNat?
+    pure (showOutcome (fun (qs, p) => "[" ++ ",".intercalate (qs.map showQuery) ++ "] " ++ toString p)
+      (Rd.run (readQueries n []) buf pos))
   | ["req", buf] => do
     let buf ← parseHex buf
     pure (showOutcome (fun (m, _) => showRequest m) (Rd.run (readRequest opqDrv) buf 0))
